@@ -75,7 +75,8 @@ def fragment(data_set, max_pdu_length, normal, last):
     :yield: tuple of bytes: fragment and its code
     :rtype: Tuple[bytes,int]
     """
-    maxsize = max_pdu_length - 6
+    # a maximum length of 0 means "no maximum length": everything fits into one fragment
+    maxsize = max_pdu_length - 6 if max_pdu_length else max(len(data_set), 1)
     for chunk, has_next in chunks(data_set, maxsize):
         yield chunk, normal if has_next else last
 
@@ -95,7 +96,8 @@ def fragment_file(fp, max_pdu_length, normal, last):
     :yield: tuple of bytes: fragment and its code
     :rtype: Tuple[bytes,int]
     """
-    maxsize = max_pdu_length - 6
+    # a maximum length of 0 means "no maximum length": read() without a size limit
+    maxsize = max_pdu_length - 6 if max_pdu_length else -1
     while True:
         chunk = fp.read(maxsize)
         if not chunk:
